@@ -65,7 +65,12 @@ pub(crate) fn dump_automaton(dfa: &CompiledDfa) -> AutomatonDump {
         states: dfa
             .states
             .iter()
-            .map(|s| s.transitions.iter().map(|(c, t)| (c.id(), t.id())).collect())
+            .map(|s| {
+                s.transitions
+                    .iter()
+                    .map(|(c, t)| (c.id(), t.id()))
+                    .collect()
+            })
             .collect(),
         accepting: dfa
             .end_states
@@ -103,10 +108,7 @@ impl Scanner {
     /// Returns None if the class id is not registered.
     pub fn verif_class_matches(&self, class_id: usize, c: char) -> Option<bool> {
         if class_id < self.inner.character_classes.len() {
-            Some((self.inner.match_char_class)(
-                (class_id as u32).into(),
-                c,
-            ))
+            Some((self.inner.match_char_class)((class_id as u32).into(), c))
         } else {
             None
         }
